@@ -66,8 +66,66 @@ def gen_cases(tier, seed):
         kind = kinds[i % len(kinds)]
         out.append({"cls": kind + (":noisy" if (i // len(kinds)) % 2 else ":noiseless"), "kind": kind, "noisy": bool((i // len(kinds)) % 2),
                     "nops": int(rng.integers(3, 26)), "unique": int(rng.integers(1, 6)), "nd": int(rng.integers(1, 20)), "gain": float(rng.uniform(0.5, 2))})
+    for j in range(12 if tier == "quick" else 200):
+        # function-backed signals (what every Askaryan pulse is): values, and the work a query does, counted in copies of the antenna
+        out.append({"cls": "function-backed", "kind": "function-backed", "k": int(rng.integers(2, 5)), "salt": int(rng.integers(0, 2**31)), "system": bool(j % 2)})
     out.append({"cls": "repo-suite", "files": ['tests/test_antenna.py', 'tests/test_detector.py', 'tests/test_kernel.py']})      # the repository's own tests as one more workload for the contract
     return out
+
+
+def run_function_backed(case):
+    """k function-backed signals received by an antenna (or system): one waveform per signal == the sum of the signals on that grid,
+    and the queries' work counted in logical steps - how often the antenna object itself is copied - stays linear in k."""
+    import copy
+    import pyrex.antenna as pa
+    import pyrex.detector as pd
+    from pyrex.signals import FunctionSignal
+    v = V()
+    rng = case_rng(case, case["salt"])
+    copies = [0]
+
+    class CountedAntenna(pa.Antenna):
+        def __deepcopy__(self, memo):
+            copies[0] += 1
+            new = self.__class__.__new__(self.__class__)
+            memo[id(self)] = new
+            for k_, val in self.__dict__.items():
+                setattr(new, k_, copy.deepcopy(val, memo))
+            return new
+    k = case["k"]
+    if case["system"]:
+        ant = pd.AntennaSystem(CountedAntenna)
+        ant.setup_antenna(position=(0, 0, -100), noisy=False)
+    else:
+        ant = CountedAntenna((0, 0, -100), noisy=False)
+    dt = 1e-9
+    grids, funcs = [], []
+    for i in range(k):
+        t_i = float(rng.uniform(0, 60)) * dt + np.arange(int(rng.integers(40, 120))) * dt
+        w_, c_ = float(rng.uniform(1e8, 4e8)), float(t_i[len(t_i) // 2])
+        f_i = (lambda x, w_=w_, c_=c_: np.sin(w_ * (x - c_)) * np.exp(-((x - c_) / 1.5e-8) ** 2))
+        grids.append(t_i)
+        funcs.append(f_i)
+        ant.receive(FunctionSignal(t_i, f_i, "voltage"), direction=(0, 0, 1), polarization=(1, 0, 0))
+    c0 = copies[0]
+    waves = ant.all_waveforms
+    hit = ant.is_hit
+    trig = ant.waveforms
+    span = np.arange(0, 200) * dt
+    full = ant.full_waveform(span)
+    n_copies = copies[0] - c0
+    v.check(len(waves) == k, "one waveform per received signal", got=len(waves), expected=k)
+    for i, w in enumerate(waves[:k]):
+        v.check(np.array_equal(np.asarray(w.times), grids[i]), "waveform i is on the grid of received signal i", i=i)
+        exp = sum(f_(grids[i]) for f_ in funcs)          # a function-backed signal is re-evaluated on the other grid, not cut to its own span
+        v.close("noiseless waveform == sum of the received function-backed signals on that grid", float(np.max(np.abs(np.asarray(w.values, float) - exp))), 1e-9, i=i, k=k)
+    expf = sum(f_(span) for f_ in funcs)
+    v.close("full waveform == sum of the received function-backed signals on the window", float(np.max(np.abs(np.asarray(full.values, float) - expf))), 1e-9, k=k)
+    v.check(isinstance(hit, (bool, np.bool_)) and len(trig) <= k, "is_hit is a boolean and the triggered waveforms are among the k")
+    # logical-step bound instead of a clock: exponential work shows as 91 / 1020 / 14058 antenna copies for k = 2 / 3 / 4 (measured
+    # on the tree before its repair), linear work as 0; ten per signal and query is far above anything linear
+    v.check(n_copies <= 10 * k * 4, "queries copy the antenna at most a bounded number of times per received signal (work linear in k)", antenna_copies=n_copies, k=k, system=case["system"])
+    return v.result(decided=True, nontrivial=True, sample={"k": k, "antenna_copies_during_queries": n_copies, "system": case["system"]})
 
 
 def run_case(case):
@@ -86,6 +144,8 @@ def run_case(case):
     import pyrex.antenna as pa
     import pyrex.detector as pd
     from pyrex.signals import Signal
+    if case["cls"] == "function-backed":
+        return run_function_backed(case)
     v = V()
     rng = case_rng(case)
     kind, noisy = case["kind"], case["noisy"]
@@ -363,3 +423,7 @@ def run_case(case):
 
 def fx_stale_waveform_cache(case, viol):
     return viol["clause"].startswith("noiseless waveform == sum") and str(viol["detail"].get("which", "")).startswith("all_waveforms")
+
+
+def fx_function_signal_deepcopy(case, viol):
+    return viol["clause"].startswith("queries copy the antenna at most a bounded number of times")
